@@ -105,9 +105,13 @@ pub fn run(case: &Case, ctx: &mut Ctx) -> R {
     let mut d = t.dump();
     for i in 0..t.accts.len() {
         if case.flavor.has_mint() {
+            let mut margs = vec![soroban_sdk::IntoVal::into_val(&t.accts[i], e), soroban_sdk::IntoVal::into_val(&(1000i128 + i as i128), e)];
+            if case.flavor == Flavor::Rwa {
+                margs.push(soroban_sdk::IntoVal::into_val(&t.admin, e));
+            }
             let c = Call {
                 func: "mint",
-                args: vec![soroban_sdk::IntoVal::into_val(&t.accts[i], e), soroban_sdk::IntoVal::into_val(&(1000i128 + i as i128), e)],
+                args: margs,
                 required: if case.flavor.mint_needs_auth() { vec![t.admin.clone()] } else { vec![] },
                 amount_arg: Some(1),
             };
@@ -305,6 +309,7 @@ pub fn property() -> Property {
             flavor_sub!("ex-blocklist", Flavor::ExBlock, 500, 10000),
             flavor_sub!("ex-votes", Flavor::ExVotes, 500, 10000),
             gen_sub::<super::vaultx::VxCase>("vault", 1500, 30000, super::vaultx::strategy_c02, super::vaultx::run_c02),
+            flavor_sub!("rwa", Flavor::Rwa, 800, 16000),
         ],
         floors: vec![],
         assumptions: vec![
